@@ -4,6 +4,8 @@
 # never touched (safe to run next to other checks).  Tooling only: registered commands never set the override.
 P=$1; shift
 WT=${MUTANT_WT:-/tmp/wt/cur}
+# the scratch worktree is created on demand; remove it when done: git -C /repo worktree remove --force $WT
+[ -d $WT ] || { mkdir -p $(dirname $WT); git -C /repo worktree add -q --detach $WT HEAD; }
 cd $WT && git checkout -q -- . && git checkout -q --detach $(git -C /repo rev-parse HEAD) && git apply $P || { echo "patch does not apply"; exit 2; }
 [ -f $WT/src/mygrad/_version.py ] || cp /repo/src/mygrad/_version.py $WT/src/mygrad/_version.py
 cd /verif
